@@ -27,9 +27,24 @@ def _ties():
 TIES = _ties()
 
 
+def _small_scope():
+    """exhaustive small scope (thorough tier): every (pos, neg) with at most 2 elements each over {0,1,2,3}, all four
+    configurations, thresholds -1 .. 4 in steps of 1/2 (on a score, between scores, beyond the range) and +-inf"""
+    import itertools
+    lists = [list(t) for k in range(3) for t in itertools.product(range(4), repeat=k)]
+    thr = [enc(Fraction(k, 2)) for k in range(-2, 9)] + ["inf", "-inf"]
+    out = []
+    for pos in lists:
+        for neg in lists:
+            for sc, ec in CONFIGS:
+                out.append({"pos": [enc(Fraction(x)) for x in pos], "neg": [enc(Fraction(x)) for x in neg], "ep": 1, "en": 2,
+                            "sc": sc, "ec": ec, "thr": thr, "is_sorted": False, "dtype": "float64", "history": None})
+    return out
+
+
 def gen_cases(rng, tier):
     n = {"quick": 400, "thorough": 6000, "search": 3000}[tier]
-    cases = []
+    cases = _small_scope() if tier == "thorough" else []
     for k in range(n):
         style = rng.choice(["ties", "ties", "dyadic", "ints", "float", "distinct"])
         big = k % 97 == 0
